@@ -214,7 +214,7 @@ func (c *Checker) reports(b *Battle, lis *listener, hs []g.Warrior, heads []int6
 func (c *Checker) manyResets(M uint64, n int) {
 	rep := c.Rep
 	rep.States++
-	b := &Battle{M: M, R: M, W: M, P: 2, C: 4, ResetAt: -1}
+	b := &Battle{M: M, R: M, W: M, P: 2, C: 4, ResetAt: -n} // a negative ResetAt below -1 marks a reset series of that length
 	al := Alphabet(M)
 	b.Ws = []WSpec{{[]g.Instruction{al[8], al[5]}, 0, 0}, {[]g.Instruction{al[3]}, 0, 4}}
 	var pan string
@@ -235,10 +235,11 @@ func (c *Checker) manyResets(M uint64, n int) {
 			sim.AddWarrior(&g.WarriorData{Code: w.Code, Start: w.Start})
 		}
 		for k := 0; k < n; k++ {
-			// only the first battle and every 97th touch the low addresses
+			// only the first battle and every 9973rd touch the low addresses; the
+			// others stay in the middle of the core
 			off := uint64(0)
-			if k%97 != 0 {
-				off = 5
+			if k%9973 != 0 {
+				off = M/2 + uint64(k%5)
 			}
 			sim.SpawnWarrior(0, g.Address(off))
 			sim.SpawnWarrior(1, g.Address(off+2))
